@@ -80,6 +80,12 @@ class Ev:
             for i in range(n):
                 if (k * 31 + i * 7) % 11 == 0:
                     vals[i, (k + i) % F] = np.inf if (k + i) % 2 else -np.inf
+                elif (k * 31 + i * 7) % 11 == 5:
+                    # both signs within one group of functions
+                    if self.n_obj >= 2:
+                        vals[i, 0], vals[i, 1] = np.inf, -np.inf
+                    elif self.n_con >= 2:
+                        vals[i, self.n_obj], vals[i, self.n_obj + 1] = -np.inf, np.inf
         true_vals = vals.copy()
         for j in range(self.n_obj):
             if rec["ao"] is not None:
